@@ -200,6 +200,16 @@ class Lib(object):
                 st.heap[(recv.oid, "items")] = SVL(VL.tl(items.z))
                 yield st, SVal(VL.hd(items.z))
                 return
+            if name == "pop" and not args:
+                bad = st.fork().assume(items.z == VL.nil).label("L%d:pop from empty" % ln)
+                if engine.feasible(bad):
+                    yield bad, Raised(IndexError, ExcObj(IndexError))
+                st.assume(VL.is_cons(items.z))
+                r, h = SVL(fresh("init", VL)), SVal(fresh("last", Val))      # items == r ++ [h]
+                st.assume(items.z == self.R(engine, st, "app", r, SVL(VL.cons(h.z, VL.nil))).z)
+                st.heap[(recv.oid, "items")] = r
+                yield st, h
+                return
             raise Unsupported("list method %s (line %d)" % (name, node.lineno))
         if isinstance(recv, Obj) and isinstance(recv.cls, str):
             ext = engine.store.externals.get("%s.%s" % (recv.cls, name))
